@@ -7,6 +7,8 @@ import Adsg.Model.Graph
 import Adsg.Model.DV
 import Adsg.Model.Metrics
 import Adsg.Model.Steps
+import Adsg.Model.Constraints
+import Adsg.Model.Conn
 open Lean Adsg
 
 namespace Drv
@@ -181,12 +183,75 @@ def opState (j : Json) : R Json := do
     ("conflict_free", Json.bool (conflictFreeB g X)), ("cons_ok", Json.bool (consOK g a)),
     ("row", jList (jOpt jNat) (row g a))]
 
+/-! ### choice constraints (function level) -/
+
+def opRemovedOpts (j : Json) : R Json := do
+  let ty ← consType (← str (← field j "ty"))
+  let nOpts ← listOf nat (← field j "n_opts")
+  let i ← nat (← field j "i_taken"); let k ← nat (← field j "j_chosen")
+  return jList (fun p : Nat × List Nat => Json.arr #[jNat p.1, jList jNat p.2]) (removedOptions ty nOpts i k)
+
+def opPreRemoved (j : Json) : R Json := do
+  let ty ← consType (← str (← field j "ty"))
+  let nOpts ← listOf nat (← field j "n_opts")
+  let ap ← bool (← field j "all_permanent")
+  return jList (fun p : Nat × List Nat => Json.arr #[jNat p.1, jList jNat p.2]) (preRemoved ty nOpts ap)
+
+def opValidIdx (j : Json) : R Json := do
+  let ty ← consType (← str (← field j "ty"))
+  let ap ← bool (← field j "all_permanent")
+  let rows ← listOf (listOf (optOf nat)) (← field j "rows")
+  let idx := (List.range rows.length).filter (fun i => validIdxRow ty ap (rows.getD i []))
+  return jList jNat idx
+
+/-! ### connection sets -/
+
+def deg (j : Json) : R Deg := do
+  match j.getObjVal? "list" with
+  | .ok l => return .list (← listOf nat l)
+  | .error _ => return .atLeast (← nat (← field j "min"))
+
+def cnode (j : Json) : R CNode := do
+  return { deg := ← deg (← field j "deg"), rep := ← bool (← field j "rep") }
+
+def connSettings (j : Json) : R ConnSettings := do
+  return { src := ← listOf cnode (← field j "src"), tgt := ← listOf cnode (← field j "tgt"),
+           excluded := ← fieldD j "excluded" (listOf (pairOf nat nat)) [],
+           parallel := ← fieldD j "parallel" (optOf nat) none }
+
+def existence (j : Json) : R Existence := do
+  return { srcOv := ← fieldD j "src" (listOf (optOf (listOf nat))) [],
+           tgtOv := ← fieldD j "tgt" (listOf (optOf (listOf nat))) [] }
+
+def jMat (M : Matrix) : Json := jList (jList jNat) M
+
+def opMatrices (j : Json) : R Json := do
+  let s ← connSettings (← field j "s")
+  let e ← existence (← field j "e")
+  let spec := enumSpec s e
+  let lib := enumLib s e
+  let test ← fieldD j "validate" (listOf (listOf (listOf nat))) []
+  return Json.mkObj [("max", jMat (maxMat s e)), ("par", jNat (parLimit s e)),
+    ("spec", jList jMat spec), ("lib", jList jMat lib), ("count", jNat (countAll s e)),
+    ("deg_tuples", jList (fun p : List Nat × List Nat => Json.arr #[jList jNat p.1, jList jNat p.2]) (degTuples s e)),
+    ("validate", jList (fun M => Json.bool (validMatrix s e M)) test)]
+
+def opBoundedComp (j : Json) : R Json := do
+  let n ← nat (← field j "n")
+  let caps ← listOf nat (← field j "caps")
+  return jList (jList jNat) (boundedComp n caps)
+
 def dispatch (op : String) (j : Json) : R Json :=
   match op with
   | "ping" => return Json.str "pong"
   | "closure" => opClosure j
   | "archs" => opArchs j
   | "state" => opState j
+  | "removed_opts" => opRemovedOpts j
+  | "pre_removed" => opPreRemoved j
+  | "valid_idx" => opValidIdx j
+  | "matrices" => opMatrices j
+  | "bounded_comp" => opBoundedComp j
   | "correct_value" => opCorrect j
   | "decode_dv" => opDecodeDV j
   | "metrics" => opMetrics j
